@@ -583,3 +583,99 @@ Proof.
   intros parse c fuel t bs Hde Ht.
   apply (mul_le_l _ _ _ _ (sig_copy_bound_len parse c Hde fuel t bs)). apply sig_copy_nest_static. exact Ht.
 Qed.
+
+(* ================= 1d. no linear bound: nested dynamic values ================= *)
+(* 5 + 10 + ... + 5 (n + 1) *)
+Fixpoint copy_m (n : nat) : N :=
+  match n with O => 5 | S n' => copy_m n' + 5 * (N.of_nat n + 1) end.
+Lemma copy_m_closed : forall n, 2 * copy_m n = 5 * (N.of_nat n + 1) * (N.of_nat n + 2).
+Proof.
+  induction n as [|n IH]; [reflexivity|]. cbn [copy_m].
+  replace (N.of_nat (S n)) with (N.of_nat n + 1) by lia. nia.
+Qed.
+
+Lemma nested_m_blen : forall n, blen (nested_m n) = 5 * (N.of_nat n + 1).
+Proof.
+  induction n as [|n IH]; [reflexivity|]. cbn [nested_m]. rewrite blen_app, IH.
+  change (blen str_m) with 5. lia.
+Qed.
+
+Lemma parse_opt_m : parse_opt "m" = Some (TS SValue).
+Proof. vm_compute. reflexivity. Qed.
+Lemma parse_opt_v : parse_opt "v" = Some (TS SVoid).
+Proof. vm_compute. reflexivity. Qed.
+
+Lemma read_str_m : forall rest, read_str (str_m ++ rest) = ROk ([x6d], rest).
+Proof. intro rest. change str_m with (enc_str [x6d]). apply WireLemmas.read_str_enc. vm_compute. discriminate. Qed.
+Lemma read_str_v : forall rest, read_str (str_v ++ rest) = ROk ([x76], rest).
+Proof. intro rest. change str_v with (enc_str [x76]). apply WireLemmas.read_str_enc. vm_compute. discriminate. Qed.
+
+Lemma sig_copy_value_S : forall parse c f bs,
+  sig_copy parse c (S f) (TS SValue) bs = mvalue parse c (sig_copy parse c f) bs.
+Proof. reflexivity. Qed.
+
+(* n dynamic values around a void: the reader succeeds, returns its input, has nested n + 2 readers and
+   copied 5 + 10 + ... + 5 (n + 1) bytes *)
+Lemma nested_m_copy : forall c, value_reader_no_len c = false ->
+  forall n fuel rest, (n < fuel)%nat ->
+  sig_copy parse_opt c fuel (TS SValue) (nested_m n ++ rest) =
+  ({| copied := copy_m n; nest := N.of_nat n + 2 |}, ROk (nested_m n, rest)).
+Proof.
+  intros c Hnl. induction n as [|n IH]; intros fuel rest Hf; (destruct fuel as [|f]; [lia|]).
+  - rewrite sig_copy_value_S. unfold mvalue. cbn [nested_m]. rewrite read_str_v.
+    change (string_of_bytes [x76]) with "v"%string. rewrite parse_opt_v, Hnl.
+    destruct f as [|f']; reflexivity.
+  - rewrite sig_copy_value_S. unfold mvalue. cbn [nested_m]. rewrite <- app_assoc, read_str_m.
+    change (string_of_bytes [x6d]) with "m"%string. rewrite parse_opt_m, Hnl.
+    rewrite (IH f rest) by lia. cbv beta iota zeta. unfold deeper, charge. cbn [copied nest].
+    change (enc_str [x6d]) with str_m. rewrite blen_app, nested_m_blen. change (blen str_m) with 5.
+    f_equal. f_equal.
+    + cbn [copy_m]. lia.
+    + lia.
+Qed.
+
+Theorem sig_copied_nested : forall n,
+  sig_read parse_opt wclean (S (List.length (nested_m n))) (TS SValue) (nested_m n) = ROk (nested_m n, []) /\
+  sig_copied wclean (TS SValue) (nested_m n) = copy_m n /\
+  sig_nest wclean (TS SValue) (nested_m n) = N.of_nat n + 2.
+Proof.
+  intro n. unfold sig_copied, sig_nest. rewrite <- sig_copy_read.
+  assert (Hf : (n < S (List.length (nested_m n)))%nat).
+  { pose proof (nested_m_blen n) as H. unfold blen in H. lia. }
+  pose proof (nested_m_copy wclean eq_refl n (S (List.length (nested_m n))) [] Hf) as H.
+  rewrite app_nil_r in H. rewrite H. cbn [fst snd copied nest]. repeat split.
+Qed.
+
+(* NO LINEAR BOUND: for every k there is an input the reader accepts (and returns whole) on which it
+   copies more than k times the input length *)
+Theorem sig_copy_not_linear : forall k : N, exists bs,
+  sig_read parse_opt wclean (S (List.length bs)) (TS SValue) bs = ROk (bs, []) /\
+  k * blen bs < sig_copied wclean (TS SValue) bs.
+Proof.
+  intro k. exists (nested_m (N.to_nat (2 * k))).
+  destruct (sig_copied_nested (N.to_nat (2 * k))) as (Hr & Hc & _). split; [exact Hr|].
+  rewrite Hc, nested_m_blen. pose proof (copy_m_closed (N.to_nat (2 * k))) as H.
+  replace (N.of_nat (N.to_nat (2 * k))) with (2 * k) in * by lia. nia.
+Qed.
+
+(* the witness of the finding sig_reader_depth_quadratic: 8000 nested dynamic values, 40,005 bytes on the
+   wire, 160,060,005 bytes copied (the harness measures about 200 MB allocated) *)
+Example sig_copied_8000 :
+  blen (nested_m (N.to_nat 8000)) = 40005 /\ sig_copied wclean (TS SValue) (nested_m (N.to_nat 8000)) = 160060005.
+Proof.
+  split.
+  - rewrite nested_m_blen. vm_compute. reflexivity.
+  - destruct (sig_copied_nested (N.to_nat 8000)) as (_ & Hc & _). rewrite Hc. vm_compute. reflexivity.
+Qed.
+(* and the same by evaluation of the model, 200 levels *)
+Example sig_copied_200 :
+  blen (nested_m 200) = 1005 /\ sig_copied wclean (TS SValue) (nested_m 200) = 101505 /\ sig_nest wclean (TS SValue) (nested_m 200) = 202.
+Proof. vm_compute. repeat split. Qed.
+
+(* the hypothesis of the upper bound is needed: with stringReader's dropped error (pinned tree) 4 bytes of
+   input -- a count of 1000 and nothing else, read as a list of strings -- make 4004 bytes of result *)
+Example drops_err_copy_unbounded :
+  let c := {| value_reader_no_len := false; string_reader_drops_err := true; refl_drop8 := false;
+              refl_struct_ignores_err := false; refl_neg_len_panics := false |} in
+  sig_copied c (TList (TS SStr)) [xe8; x03; x00; x00] = 8004 /\ sig_nest c (TList (TS SStr)) [xe8; x03; x00; x00] = 2.
+Proof. vm_compute. repeat split. Qed.
